@@ -23,6 +23,8 @@ func init() {
 		Controls: []Control{
 			{Name: "state-predicate-on-value-type", File: "protocols/bgp/server/peer.go", Old: "\tcase *establishedState:\n\t\treturn true", New: "\tcase establishedState:\n\t\treturn true", Expect: "state-switch-case-inhabited"},
 			{Name: "tie-break-ignores-as-on-equal-ids", File: "protocols/bgp/server/peer.go", Old: "\tif p.routerID == callingFSM.neighborID {\n\t\treturn p.localASN < callingFSM.peer.peerASN\n\t}\n", New: "", Expect: "collision-tie-break-table"},
+			{Name: "identifier-stored-after-collision-handling", File: "protocols/bgp/server/fsm_open_sent.go", Old: "\ts.fsm.neighborID = openMsg.BGPIdentifier\n\n\tif s.fsm.isBMP {", New: "\tif s.fsm.isBMP {\n\t\ts.fsm.neighborID = openMsg.BGPIdentifier", Expect: "collision-path"},
+			{Name: "cease-event-droppable", File: "protocols/bgp/server/fsm.go", Old: "\tfsm.eventCh <- Cease\n", New: "\tselect {\n\tcase fsm.eventCh <- Cease:\n\tdefault:\n\t}\n", Expect: "collision-path"},
 			{Name: "cease-without-notification", File: "protocols/bgp/server/fsm_open_confirm.go", Old: "func (s *openConfirmState) cease() (state, string) {\n\ts.fsm.sendNotification(packet.Cease, 0)\n", New: "func (s *openConfirmState) cease() (state, string) {\n", Expect: "cease-notifies-before-close"},
 		},
 	})
@@ -230,6 +232,96 @@ func runC24(c *core.Ctx) {
 			return true
 		})
 		c.Check(ok, "collision-path", omr.Name()+" ceases when it lost the collision", omr.Decl.Pos(), "a lost collision does not lead to the calling FSM's own cease()")
+	}
+
+	// (3b) the tie-break's input (the neighbour's BGP identifier from this OPEN) is stored before collision handling runs
+	if omr := p.Func(srv + ".(*openSentState).openMsgReceived"); omr != nil {
+		nid := p.Field(srv, "FSM", "neighborID")
+		bid := p.Field("protocols/bgp/packet", "BGPOpen", "BGPIdentifier")
+		ch := p.Func(srv + ".(*peer).collisionHandling")
+		reaches := map[*core.Fn]bool{}
+		if ch != nil {
+			for _, f := range p.FuncsIn(srv) {
+				if f.Decl.Body == nil {
+					continue
+				}
+				for _, g := range p.ReachableFns(f) {
+					if g == ch {
+						reaches[f] = true
+					}
+				}
+			}
+		}
+		var check func(f *core.Fn, depth int, via string)
+		visited := map[*core.Fn]bool{}
+		n := 0
+		check = func(f *core.Fn, depth int, via string) {
+			if visited[f] || depth > 5 {
+				return
+			}
+			visited[f] = true
+			store := func(nd ast.Node) bool {
+				as, ok := nd.(*ast.AssignStmt)
+				return ok && len(as.Lhs) == 1 && len(as.Rhs) == 1 && core.FieldOf(f.Pkg, as.Lhs[0]) == nid && nid != nil && core.MentionsField(f.Pkg, as.Rhs[0], bid)
+			}
+			target := func(nd ast.Node) bool {
+				return core.NodeHas(nd, func(x ast.Node) bool {
+					cl, ok := x.(*ast.CallExpr)
+					if !ok {
+						return false
+					}
+					g := p.FnOf(core.Callee(f.Pkg, cl))
+					return g != nil && (g == ch || reaches[g])
+				})
+			}
+			for _, hit := range core.PathAvoiding(p.CFG(f), store, target) {
+				ast.Inspect(hit, func(x ast.Node) bool {
+					cl, ok := x.(*ast.CallExpr)
+					if !ok {
+						return true
+					}
+					g := p.FnOf(core.Callee(f.Pkg, cl))
+					switch {
+					case g == nil:
+					case g == ch:
+						n++
+						c.Fail("collision-path", f.Name()+" stores the neighbour's BGP identifier before collision handling", cl.Pos(),
+							"collisionHandling is reachable"+via+" on a path on which FSM.neighborID has not yet been set from the received OPEN: shouldCeaseOnCollision compares the local identifier with 0 (or with the identifier of an earlier session), so the wrong connection is ceased")
+					case reaches[g]:
+						check(g, depth+1, via+" via "+g.Name())
+					}
+					return true
+				})
+			}
+		}
+		check(omr, 0, "")
+		if n == 0 {
+			c.Hold("collision-path", omr.Name()+" stores the neighbour's BGP identifier before collision handling", omr.Decl.Pos(), "every path from the OPEN handler to collisionHandling passes the store")
+		}
+	}
+	// (3c) the Cease event for the losing connection cannot be dropped: FSM.cease sends on every path
+	if f := c.MustFunc(srv + ".(*FSM).cease"); f != nil {
+		evc := p.Field(srv, "FSM", "eventCh")
+		// go/cfg lists the communication of every select clause in the block before the select: a send that is one
+		// alternative of a select is not a send on every path
+		alt := map[ast.Node]bool{}
+		ast.Inspect(f.Decl.Body, func(nd ast.Node) bool {
+			if sel, ok := nd.(*ast.SelectStmt); ok && len(sel.Body.List) > 1 {
+				for _, cl := range sel.Body.List {
+					if cc := cl.(*ast.CommClause); cc.Comm != nil {
+						alt[cc.Comm] = true
+					}
+				}
+			}
+			return true
+		})
+		send := func(nd ast.Node) bool {
+			ss, ok := nd.(*ast.SendStmt)
+			return ok && !alt[nd] && core.FieldOf(f.Pkg, ss.Chan) == evc && evc != nil
+		}
+		rets, implicit := core.ExitsWithout(p.CFG(f), send)
+		c.Check(len(rets) == 0 && !implicit, "collision-path", f.Name()+" delivers the Cease event on every path", f.Decl.Pos(),
+			"FSM.cease can return without having sent Cease on the FSM's event channel (non-blocking send): the losing connection of a collision keeps running and both connections can reach Established")
 	}
 
 	// (4) cease sends NOTIFICATION(Cease) before Close
